@@ -478,6 +478,8 @@ extern "C" int harness_main() {
     }
     VERIF_ASSERT(!r.stuck, "C17: ninja never ends with 'stuck' instead of a diagnostic");
     if (inv == 0 && verif_bool("edit_source_between")) { std::vector<std::string> src = split_words(sc->sources); edit_file(src[0]); }
+    if (inv == 0 && sc->manifest[1]) { g_manifest_variant = verif_choice("manifest_variant", 2); if (g_manifest_variant) { // the project is reorganised: what used to be a source is now generated
+        for (int i = 0; i < 16; i++) g_last[i].ran = g_last[i].ran; verif_reach("reorganised"); } }
   }
   return 0;
 }
